@@ -55,8 +55,11 @@ Theorem C19_percentage : forall (min_ada : output -> result N) (pct : N) (addr :
   col_sorted (b_collateral b) ->
   percent_helper min_ada pct addr bal_ok fee_after b = (true, b') ->
   spec_holds min_ada b' /\ b_collateral b' = b_collateral b /\ bal_ok = true /\
-  exists fee, fee_after = Some fee /\ b_fee b' = Some fee /\ fee * pct < two64 /\
-              b_total b' = Some (fee * pct / 100 + 1) /\ spec_percent fee pct (fee * pct / 100 + 1).
+  (exists fee, fee_after = Some fee /\ b_fee b' = Some fee /\ fee * pct < two64 /\
+               b_total b' = Some (fee * pct / 100 + 1) /\ spec_percent fee pct (fee * pct / 100 + 1)) /\
+  exists s, total_value (b_collateral b) = Ok s /\
+    b_return b' = if is_some (multiasset_of s) || (0 <? coin s - f_required fee_after pct)
+                  then Some (output_new addr (mkValue (coin s - f_required fee_after pct) (multiasset_of s))) else None.
 Proof. intros m pct a ok f b b' Hc H. exact (percent_ok m _ pct a ok f b b' Hc H). Qed.
 Print Assumptions C19_percentage.
 
@@ -116,6 +119,23 @@ Proof.
   exists w_min_ada, 150, (w_addr 6), 170000, w_early_state, b'. exact H.
 Qed.
 Print Assumptions C19_legacy_early_failure_refuted.
+
+(* the executable judge used in the correspondence run decides the statement (sound always; complete whenever the plain sums
+   of the inputs fit in 64 bits, which every helper-written state satisfies) *)
+Theorem C19_judge_decides_spec : forall (min_ada : output -> result N) (ins : list value) (r : option output) (t : option N),
+  vals_sorted ins -> value_sorted (return_value r) = true ->
+  (spec_holdsb min_ada ins r t = true ->
+     exists t', t = Some t' /\ spec_consistent ins r t' /\ spec_min_ada min_ada r) /\
+  (forall s t', sum_values value_zero ins = Ok s -> t = Some t' -> spec_consistent ins r t' -> spec_min_ada min_ada r ->
+     spec_holdsb min_ada ins r t = true).
+Proof. exact judge_decides_spec. Qed.
+Print Assumptions C19_judge_decides_spec.
+
+(* ... and never rejects the model's own observations of any history (verdicts: holds, na, or the known class) *)
+Theorem C19_judge_accepts_model : forall (min_ada : output -> result N) (h : list op),
+  Forall op_wf h -> judge min_ada h (model_obs min_ada h builder_new) <> FailsUnknown.
+Proof. exact judge_accepts_model. Qed.
+Print Assumptions C19_judge_accepts_model.
 
 (* non-vacuity: a history with native assets in which all three helpers succeed *)
 Check good_history_governed.
